@@ -218,3 +218,39 @@ macro_rules! c17_digit_ops {
         });
     };
 }
+
+/// the reference / assign shift forms panic for an out-of-range amount exactly like the by-value operator
+#[macro_export]
+macro_rules! c17_shift_forms_panic {
+    ($name:ident, $unw:expr, $T:ty, $D:ty, $N:expr) => {
+        $crate::panic_harness!($name, $unw, {
+            use $crate::util::*;
+            const BITS: u32 = <$D>::BITS * $N;
+            let (x, _) = <$T as BN<$D, $N>>::any();
+            let r: i128 = $crate::nd::nd();
+            let sel: u8 = $crate::nd::nd();
+            let form: u8 = $crate::nd::nd();
+            $crate::nd::assume(sel < 12 && form < 4);
+            let (in_range, _amt): (bool, u32) = $crate::c04_shift!(@amount r, sel);
+            $crate::nd::assume(!in_range);
+            $crate::reach!(sel == 3 && form == 0 && (r as u64) > u32::MAX as u64 && (r as u64) & 0xffff_ffff < BITS as u64, "u64 amount above u32::MAX with small low bits");
+            $crate::reach!(sel == 9 && form == 3, "i64 amount, assign form");
+            macro_rules! forms {
+                ($v:expr) => {{
+                    let v = $v;
+                    match form {
+                        0 => { let _ = &x << v; }
+                        1 => { let _ = x >> &v; }
+                        2 => { let _ = &x << &v; }
+                        _ => { let mut z = x; z >>= v; }
+                    }
+                }};
+            }
+            match sel {
+                0 => forms!(r as u8), 1 => forms!(r as u16), 2 => forms!(r as u32), 3 => forms!(r as u64), 4 => forms!(r as u128), 5 => forms!(r as usize),
+                6 => forms!(r as i8), 7 => forms!(r as i16), 8 => forms!(r as i32), 9 => forms!(r as i64), 10 => forms!(r), _ => forms!(r as isize),
+            }
+            $crate::noreturn!("a reference / assign shift form returned for an out-of-range amount");
+        });
+    };
+}
